@@ -76,8 +76,8 @@ Proof. vm_compute. repeat split; reflexivity. Qed.
 From Coq Require Import List String.
 Import ListNotations.
 Lemma leaf_reads_align :
-  L_align_u32_align_to_args = ["self : u32"%string; "align : u32"%string] /\
-  L_align_u32_aligned_to_args = ["self : u32"%string; "align : u32"%string] /\
-  L_align_usize_align_to_args = ["self : usize"%string; "align : usize"%string] /\
-  L_align_usize_aligned_to_args = ["self : usize"%string; "align : usize"%string].
+  L_align_u32_align_to_args = ["self : u32"%string; "arg1 : u32"%string] /\
+  L_align_u32_aligned_to_args = ["self : u32"%string; "arg1 : u32"%string] /\
+  L_align_usize_align_to_args = ["self : usize"%string; "arg1 : usize"%string] /\
+  L_align_usize_aligned_to_args = ["self : usize"%string; "arg1 : usize"%string].
 Proof. repeat split; reflexivity. Qed.
